@@ -1,4 +1,5 @@
-package checks
+// Package c03 checks property C03 (the parsed tree is the tree the grammar prescribes).
+package c03
 
 import (
 	"fmt"
@@ -10,8 +11,6 @@ import (
 	"verif/sqlgen"
 )
 
-func init() { Registry["C03"] = c03 }
-
 // errCode extracts "E2001" from an error text (the structured code is checked in C13).
 func errCode(err error) string {
 	s := err.Error()
@@ -22,7 +21,8 @@ func errCode(err error) string {
 	return "E????"
 }
 
-func c03() *common.Check {
+// Check returns the C03 check.
+func Check() *common.Check {
 	return &common.Check{
 		ID:    "C03",
 		Level: "exploration",
